@@ -121,7 +121,13 @@ pub fn flow(out: &mut Out, count: u64) {
                 5 => {
                     let qos = d.rng.below(3) as u8;
                     let dup = d.rng.pct(15).then(|| d.broker.retransmit_in2(&mut d.rng)).flatten();
-                    if let Some(o) = dup {
+                    if d.rng.pct(12) {
+                        // An inbound publish that fits the receive buffer exactly, or misses it
+                        // by one byte either way.
+                        let total = (cfg.rx as i64 + d.rng.range(0, 2) as i64 - 1) as usize;
+                        let bytes = super::fam_codec::exact_publish(total, d.rng.below(2) as u8);
+                        d.send_raw("publish-exact-fit", &bytes);
+                    } else if let Some(o) = dup {
                         d.send(&o);
                     } else if let Some(o) = d.broker.inbound(&mut d.rng, qos, None, None) {
                         d.send(&o);
